@@ -59,6 +59,7 @@ def plan(tier):
     units += [('matrix', tier, k, 16) for k in range(16)]
     units.append(('sharing', tier))
     units.append(('illtyped', tier))
+    units.append(('castpairs', tier))
     return units
 
 
@@ -244,6 +245,57 @@ def run(unit):
                     explore(obj, f'parse_{"predicate" if kind == "pred" else "expression"}({"{ " + text + " }" if kind == "pred" else text})', r, 1, seen)
             r.count('validated')
         r.sample({'must_be_rejected': texts[1]})
+    elif what == 'castpairs':
+        # nodes built through the constructors over references that were narrowed beforehand: every ordered pair of
+        # type sets (the 7 non-empty sets of primitives, arrays, messages, and some unions with them) under every
+        # binary operator / a set / a range / an index; whatever the constructor hands out is a state
+        import hpl.ast as A
+        from hpl.types import DataType as D
+
+        base = {'B': D.BOOL, 'N': D.NUMBER, 'S': D.STRING}
+        menu = []
+        for mask in range(1, 8):
+            names = [n for i, n in enumerate('BNS') if mask >> i & 1]
+            ty = D.NONE
+            for n in names:
+                ty = ty | base[n]
+            menu.append((''.join(names), ty))
+        menu += [('A', D.ARRAY), ('M', D.MESSAGE), ('NA', D.NUMBER | D.ARRAY), ('BM', D.BOOL | D.MESSAGE), ('NSA', D.NUMBER | D.STRING | D.ARRAY)]
+
+        def ref(name, ty):
+            return A.HplFieldAccess(A.HplThisMessage(), name).cast(ty)
+
+        builders = [(op, (lambda a, b, op=op: A.HplBinaryOperator(op, a, b))) for op in ('=', '!=', '<', '+', 'and', 'implies', 'in')]
+        builders += [
+            ('set', lambda a, b: A.HplBinaryOperator('in', A.HplFieldAccess(A.HplThisMessage(), 'z'), A.HplSet((a, b)))),
+            ('range', lambda a, b: A.HplBinaryOperator('in', A.HplFieldAccess(A.HplThisMessage(), 'z'), A.HplRange(a, b))),
+            ('index', lambda a, b: A.HplBinaryOperator('=', A.HplArrayAccess(a, b), A.HplFieldAccess(A.HplThisMessage(), 'z'))),
+            ('max', lambda a, b: A.HplBinaryOperator('=', A.HplFunctionCall('max', (a, b)), A.HplFieldAccess(A.HplThisMessage(), 'z'))),
+        ]
+        for n1, t1 in menu:
+            for n2, t2 in menu:
+                for bname, mk in builders:
+                    r.count('evaluations')
+                    try:
+                        node = mk(ref('level', t1), ref('code', t2))
+                    except Exception as e:  # noqa: BLE001
+                        r.outcomes[f'castpairs:{type(e).__name__}'] += 1
+                        continue
+                    r.outcomes['castpairs:built'] += 1
+                    label = f'constructor {bname}(level as {n1}, code as {n2})'
+                    explore(node, label, r, 1, seen)
+                    if node.can_be_bool:
+                        # ... and inside a predicate together with a second, typed occurrence of each reference
+                        for extra in ('code = "x"', 'level > 0', 'not level'):
+                            try:
+                                other = impl.parser('expr').parse(extra)
+                                pred = A.HplPredicateExpression(A.HplBinaryOperator('and', node, other))
+                            except Exception as e:  # noqa: BLE001
+                                r.outcomes[f'castpairs pred:{type(e).__name__}'] += 1
+                                continue
+                            explore(pred, label + f' and {extra}', r, 1, seen)
+                    r.count('validated')
+        r.sample({'castpairs': 'HplBinaryOperator("=", level.cast(BOOL|NUMBER), code.cast(NUMBER|STRING))'})
     elif what == 'sharing':
         # predicates in which one variable occurs in positions of different strictness (=, set element, index,
         # arithmetic, function argument, quantifier domain bound): replacing it puts ONE object in all of them
@@ -308,7 +360,7 @@ def replay(w):
 def describe(tier):
     b = bounds(tier)
     return {
-        'rule': f"initial states: parser results for every Bool/Num/Str term with <= {b['nodes']} nodes (fields, alias fields, literals, 4 arithmetic / 4 comparison / 4 logical operators, abs len sum max min gcd bool str, sets, ranges, indexing, inclusion, both quantifiers) as expression and predicate, the C12 property family, the signature matrix (every operator and built-in function with every valid argument shape; depth 1), a 13-text family in which one variable occurs in positions of different strictness, and ~900 texts that must be rejected (bound variables outside their domain's element type, the invalid half of the signature matrix): whatever the parser accepts of them becomes a state; transitions: simplify, split_and elements, refactor_reference halves, both replacements, replace_var_reference with one shared untyped object (a variable / a field chain), negate, join with 6 predicates, canonical_form outputs; BFS to depth {b['depth']} with states deduplicated on the typed lift; the per-node invariant is evaluated in every state.",
+        'rule': f"initial states: parser results for every Bool/Num/Str term with <= {b['nodes']} nodes (fields, alias fields, literals, 4 arithmetic / 4 comparison / 4 logical operators, abs len sum max min gcd bool str, sets, ranges, indexing, inclusion, both quantifiers) as expression and predicate, the C12 property family, the signature matrix (every operator and built-in function with every valid argument shape; depth 1), a 13-text family in which one variable occurs in positions of different strictness, and ~900 texts that must be rejected (bound variables outside their domain's element type, the invalid half of the signature matrix): whatever the parser accepts of them becomes a state; transitions: simplify, split_and elements, refactor_reference halves, both replacements, replace_var_reference with one shared untyped object (a variable / a field chain), negate, join with 6 predicates, canonical_form outputs; BFS (plus nodes built through the constructors over two references narrowed beforehand: every ordered pair of 12 type sets x 11 node builders, alone and conjoined with a second typed occurrence of a reference) to depth {b['depth']} with states deduplicated on the typed lift; the per-node invariant is evaluated in every state.",
         'bounds': b,
         'exhaustive': True,
         'assumptions': ['invariant table in hplmc/ref/types.py is the reference; bound-variable use is checked with the weakest reading (non-empty intersection with the element type)'],
